@@ -186,7 +186,7 @@ func (r *fsmRig) settle(chid datatransfer.ChannelID) (datatransfer.ChannelState,
 		if err != nil {
 			return nil, false
 		}
-		if !channels.IsChannelCleaningUp(st.Status()) {
+		if !isCleanup(st.Status()) {
 			return st, true
 		}
 		if time.Now().After(deadline) {
